@@ -402,8 +402,12 @@ class FactoryRun:
     # -- run ----------------------------------------------------------------------------------------
     def run(self, T):
         env = self.env
-        env.after_event.extend(self.hooks_event)
-        env.at_instant_end.extend(self.hooks_instant)
+        if not getattr(self, "_hooked", False):
+            env.after_event.extend(self.hooks_event)
+            env.at_instant_end.extend(self.hooks_instant)
+            self._hooked = True
+        if self.crash is not None:
+            return
         try:
             while env.peek() <= T:
                 env.step()
